@@ -134,6 +134,7 @@ Fixpoint escape_string (s : str) : str :=
         end
       else if N.eqb c 34 then 92 :: 34 :: escape_string r
       else if N.eqb c nl then 92 :: 110 :: escape_string r
+      else if N.eqb c 13 then 92 :: 114 :: escape_string r     (* a raw carriage return would end the line *)
       else c :: escape_string r
   end.
 
